@@ -294,6 +294,68 @@ func vpC04Work(depth int) {
 func vpH_C04_work6()  { vpC04Work(6) }
 func vpT_C04_work10() { vpC04Work(10) }
 
+// STRHOLE: 1-2 (thorough 3) unconstrained bytes as the content of a JSON string at every term the
+// decoders look up, in a document of every family: the parsers of string contents (instants, xsd
+// durations, media types, IRIs, language tags, type names) are total
+func vpC04StrHole(n int, special bool) { vpC04StrHoleT(n, special, 7) }
+
+func vpC04StrHoleT(n int, special bool, nterms int) {
+	typ := vpC04Skeletons[vpChoice(len(vpC04Skeletons)-1)]
+	term := vpDecoderTerms[vpChoice(len(vpDecoderTerms))]
+	if special {
+		// the terms whose string content has a parser of its own (instants, durations), two families
+		typ = []string{"Question", "Tombstone"}[vpChoice(1+nterms/7)]
+		term = []string{"duration", "closed", "published", "updated", "startTime", "endTime", "deleted"}[vpChoice(nterms)]
+	}
+	hole := vpBytes(n)
+	for _, c := range hole {
+		vpAssume(c != '"' && c != '\\' && c >= 0x20)
+	}
+	var doc string
+	if term == "type" {
+		doc = `{"id":"https://h.ex/i","type":"` + string(hole) + `"}`
+	} else {
+		doc = `{"id":"https://h.ex/i","type":"` + typ + `","` + term + `":"` + string(hole) + `"}`
+	}
+	cell := typ + "/" + term
+	var it Item
+	var err error
+	p := vpMayPanic(func() { it, err = UnmarshalJSON([]byte(doc)) })
+	vpAssert("strhole/no-panic/"+cell, !p)
+	if !p && err == nil {
+		vpC04FollowUp("strhole/"+cell, it)
+	}
+	vpReach("end")
+}
+
+func vpH_C04_strhole1()         { vpC04StrHole(1, false) }
+func vpT_C04_strhole2_duration() { vpC04StrHoleT(2, true, 1) }
+func vpT_C04_strhole2_instants() { vpC04StrHole(2, true) }
+func vpT_C04_strhole2()         { vpC04StrHole(2, false) }
+
+// type names the library uses internally for non-struct items (IRI, lists) borne by a document
+func vpH_C04_internal_type_names() {
+	names := []string{"IRI", "IRICollection", "ItemCollection", "", "iri", "Iri"}
+	name := names[vpChoice(len(names))]
+	var doc string
+	switch vpChoice(3) {
+	case 0:
+		doc = `{"id":"https://h.ex/i","type":"` + name + `","name":"n"}`
+	case 1:
+		doc = `{"id":"https://h.ex/o","type":"Note","icon":{"id":"https://h.ex/i","type":"` + name + `"}}`
+	default:
+		doc = `{"id":"https://h.ex/o","type":"Like","object":[{"type":"` + name + `","id":"https://h.ex/i"},"https://h.ex/j"]}`
+	}
+	var it Item
+	var err error
+	p := vpMayPanic(func() { it, err = UnmarshalJSON([]byte(doc)) })
+	vpAssert("internal-type/no-panic/"+name, !p)
+	if !p && err == nil {
+		vpC04FollowUp("internal-type/"+name, it)
+	}
+	vpReach("end")
+}
+
 func vpW_C04_twin() {
 	_, _ = UnmarshalJSON(vpBytes(1))
 	vpAssert("twin", false)
